@@ -7,10 +7,10 @@ from pathlib import Path
 from harness.core import lean, sp
 
 SPLITS = ["train", "test", "holdout"]
-SUBS = {".": [], "a": [10], "b": [11], "a/y": [10, 20], "a/z": [10, 21], "b/y/q": [11, 20, 30], "c/y": [12, 20],
+SUBS = {".": [], "a": [10], "ab": [13], "b": [11], "a/y": [10, 20], "a/yz": [10, 22], "a/z": [10, 21], "b/y/q": [11, 20, 30], "c/y": [12, 20],
         # sub-directories that are *named like a split* (a directory `train` below the split `test` is just a directory)
         "train": [0], "test": [1], "a/train": [10, 0], "holdout/y": [2, 20]}
-NAME = {10: "a", 11: "b", 12: "c", 20: "y", 21: "z", 30: "q"}
+NAME = {10: "a", 11: "b", 12: "c", 13: "ab", 20: "y", 21: "z", 22: "yz", 30: "q"}      # "a"/"ab", "y"/"yz": one name is a string prefix of its sibling's
 CODE = {v: k for k, v in NAME.items()}
 
 
@@ -37,12 +37,12 @@ def gen_history(rng, n_sessions: int, eps: int):
             for _ in range(rng.choice([1, 1, 2, 3])):
                 # third component: the caller's *last* write to that split in this step is a rejected one (wrong shape,
                 # caught by the caller) — in particular right after a shard became full
-                writes.append([rng.randrange(3), rng.choice([0, 1, eps, eps + 1, 2 * eps, 2 * eps + 1]), rng.random() < 0.3])
+                writes.append([rng.randrange(3), rng.choice([0, 1, eps, eps + 1, 2 * eps, 2 * eps + 1]), rng.choice([False, False, False, False, True, "dtype"])])
             if not any(w[1] for w in writes): writes[0][1] = 1
             hist.append({"kind": "filler", "sub": sub, "writes": writes, "reopen": reopen})
         else:
             k = rng.choice([1, 2, 3])
-            writers = [[[rng.randrange(3), rng.choice([0, 1, eps, eps + 1]), rng.random() < 0.25] for _ in range(rng.choice([1, 2]))] for _ in range(k)]
+            writers = [[[rng.randrange(3), rng.choice([0, 1, eps, eps + 1]), rng.choice([False, False, False, True, "dtype"])] for _ in range(rng.choice([1, 2]))] for _ in range(k)]
             if not any(x[1] for w in writers for x in w): writers[0][0][1] = 2
             hist.append({"kind": "multi", "writers": writers, "reopen": reopen})
     return hist
@@ -125,13 +125,18 @@ def recount(root: Path):
     return problems, per_split
 
 
-def bad_write(f, split):
-    """A write the library must reject (wrong shape); the caller carries on."""
+def bad_write(f, split, how=True, fmt="fb"):
+    """A write the library must reject; the caller carries on.  `how`: True / "shape": wrong shape (fails the up-front check of
+    every writer); "dtype": right shape, a dtype that cannot be cast safely to the declared one (int32 <- float64: passes the
+    shape check, rejected later by the format's own serializer)."""
+    if fmt != "fb":
+        how = True            # only the FlatBuffers writer is required to refuse an unsafe cast (C18); elsewhere use the shape
+    bad = {"a": sp.np.array([0.5, 1.5], dtype=sp.np.float64)} if how == "dtype" else {"a": sp.np.zeros((3,), dtype=sp.np.int32)}
     try:
-        f.write_example(values={"a": sp.np.zeros((3,), dtype=sp.np.int32)}, split=split)
+        f.write_example(values=bad, split=split)
     except Exception:  # noqa: BLE001
         return
-    raise AssertionError("a wrong-shape example was accepted")
+    raise AssertionError(f"an invalid example ({how}) was accepted")
 
 
 def run_history(root: Path, fmt: str, eps: int, hist, hashes=None):
@@ -163,7 +168,7 @@ def run_history(root: Path, fmt: str, eps: int, hist, hashes=None):
                         for _ in range(n):
                             f.write_example(values=sp.val(nxt), split=SPLITS[s]); written[s].append(nxt); nxt += 1
                         if rej and rej[0]:
-                            bad_write(f, SPLITS[s])
+                            bad_write(f, SPLITS[s], rej[0], fmt)
             else:
                 def feed(filler, plan):
                     nonlocal nxt
@@ -172,13 +177,13 @@ def run_history(root: Path, fmt: str, eps: int, hist, hashes=None):
                             for v in ids:
                                 f.write_example(values=sp.val(v), split=SPLITS[s])
                             if rej:
-                                bad_write(f, SPLITS[s])
+                                bad_write(f, SPLITS[s], rej, fmt)
                     return len(plan)
                 plans = []
                 for w in se["writers"]:
                     plan = []
                     for s, n, *rej in w:
-                        ids = list(range(nxt, nxt + n)); nxt += n; written[s] += ids; plan.append((s, ids, bool(rej and rej[0])))
+                        ids = list(range(nxt, nxt + n)); nxt += n; written[s] += ids; plan.append((s, ids, (rej[0] if rej and rej[0] else False)))
                     plans.append((plan,))
                 DW.uuid = UuidMod
                 try:
